@@ -127,7 +127,7 @@ func VF_C01_api() {
 // from the container's own API, and the error path of a getter compiles for
 // value types too.
 func VF_C01_getters() {
-	g := vfStr("getter", vfBound("c01.getter", 10, 16))
+	g := vfStr("getter", vfBound("c01.getter", 10, 20))
 	t := vfStr("type", 3)
 	vfAssume(vfInRe(t, `\A\*?[A-Z][a-z]?\z`))
 	ctor := "NewX"
